@@ -433,6 +433,9 @@ def gen_name(rng, stem, p_special):
     c = rng.choice(pool)
     d = rng.choice(pool)
     shape = rng.choice(['%(s)s%(c)sx.h', '%(s)s%(c)sx.h', '%(c)s%(s)s.h', '%(s)s%(c)s.h',
+                        # the same character twice: adjacent, separated, both
+                        '%(s)s%(c)s%(c)sx.h', '%(s)s%(c)sx%(c)sy.h', '%(s)s%(c)s%(c)sx%(c)s.h',
+                        's%(c)sd%(c)s/%(s)s.h',
                         '%(s)s%(c)s%(d)sy.h', '%(s)s%(c)sy%(d)sz.h', '%(s)s.h%(c)s',
                         's%(c)sd/%(s)s.h', 'sub/%(s)s%(c)sw.h', 'a %(c)s/%(s)s%(d)s.h',
                         '%(s)s %(c)s.h'])
@@ -443,6 +446,54 @@ def gen_name(rng, stem, p_special):
     if any(x in ('', '.', '..') for x in comps):
         return plain, plain
     return name, plain
+
+
+# --------------------------------------------------------------------------
+# directed projects: every special character twice in one header name
+
+REPEAT_QUICK = [' $#', '%&(', '+,@', '~)', '=']
+REPEAT_ALL = [' $#', '%&(', '+,@', '~*?', '[]:', '!{}', ';|<', '>^`', "')", '=']
+
+
+def repeated_names(stem, c):
+    """(adjacent, separated) header names holding the character twice."""
+    return '%s%s%sm.h' % (stem, c, c), '%s%sm%sk.h' % (stem, c, c)
+
+
+def directed_repeat(lang, chars, incmode='hdrdir'):
+    """A two-TU project whose headers carry each character of `chars` twice (adjacent in one
+    header, separated in another), and a history that makes each of them vanish: renamed
+    (to another name of the same kind, includers updated) and later deleted in one step.
+    main includes them directly, tu1 through a plain hub header."""
+    ext = '.cpp' if lang == 'c++' else '.c'
+    H = {}
+    n = 0
+    for c in chars:
+        for form in (0, 1):
+            n += 1
+            H[str(n)] = {'name': repeated_names('h%d' % n, c)[form], 'plain': 'h%d.h' % n,
+                         'dir': 0, 'base': 10 + n, 'inc': []}
+    hub = str(n + 1)
+    H[hub] = {'name': 'hub.h', 'plain': 'hub.h', 'dir': 0, 'base': 7,
+              'inc': [[str(i), 1 + i % 5] for i in range(1, n + 1)]}
+    st = {'lang': lang, 'incmode': incmode, 'incdirs': ['inc'], 'incdirs_plain': ['inc'],
+          'headers': H,
+          'tus': {'0': {'file': 'main' + ext, 'base': 1, 'lib': False,
+                        'inc': [[str(i), 2 + i % 3] for i in range(1, n + 1)]},
+                  '1': {'file': 'tu1' + ext, 'base': 2, 'lib': False, 'inc': [[hub, 3]]}}}
+    hist = [{'op': 'mod_header', 'h': '1', 'base': 99}, {'op': 'noop'}]
+    k = 0
+    for c in chars:
+        for form in (0, 1):
+            k += 1
+            new = repeated_names('h%dr' % k, c)[form]
+            hist.append({'op': 'rename_header', 'h': str(k), 'name': new,
+                         'plain': 'h%dr.h' % k})
+    hist.append({'op': 'noop'})
+    for i in range(1, n + 1):
+        hist.append({'op': 'del_header', 'h': str(i)})
+    hist += [{'op': 'noop'}, {'op': 'clean'}]
+    return st, hist
 
 
 # --------------------------------------------------------------------------
